@@ -15,6 +15,12 @@ windows": bursts that start anywhere inside a window after a quiet stretch, mess
 the link minimum, local deliveries around each arrival (Lean side: `HappyModel/C05/Idle.lean`,
 `HappyProofs/C05/Idle.lean` — which idle fast-forwards are sound and which are not).  The Lean Spec (`HappyModel/C05/Spec.lean`) judges the
 implementation's parallel-vs-sequential logs directly.
+
+Families `stateful` and `tiex` (20 % of the cases) run *stateful* harness entities (delivery counter, set of kinds
+seen; rules `nth`, `dedup` — tie-commutative — and `first` — order-sensitive) whose transcripts keep the real order
+of deliveries and the sender's partition; the model's `runs` mode (`HappyModel/C05/Stateful.lean`, `DriverS.lean`)
+assigns creation indices the way the code does, the `judges` mode (`SpecS.lean`) names the design-level tie-order
+divergence `par/tie-order/cross-arrival-after-local-tie` (known finding, fixes/C05-tie-order-sensitive-handlers.known.md).
 """
 from __future__ import annotations
 
@@ -130,6 +136,74 @@ def _node_class():
     return Node
 
 
+_SNODE = None
+
+
+def _snode_class():
+    """stateful harness entity (family stateful / tiex): a delivery counter and the set of kinds seen; on top of
+    the stateless script, rules `first` (answer kind A only while no kind B has been delivered: order-sensitive),
+    `nth` (emit on the n-th delivery) and `dedup` (answer a kind only the first time it is seen) — the latter two
+    commute on same-timestamp deliveries.  Emitted event types carry the sender (`k<kind>s<entity>`), the log says for
+    every delivery which partition it came from (`i` = scheduled before the run) and is NOT canonicalised."""
+    global _SNODE
+    if _SNODE is not None:
+        return _SNODE
+    Node = _node_class()
+    from happysimulator.core.event import Event
+    from happysimulator.core.temporal import Instant
+
+    class SNode(Node):
+        def __init__(self, eid, pid, script, rules, pids):
+            super().__init__(eid, pid, script)
+            self.rules = rules        # this entity's rules, in case order
+            self.pids = pids          # entity -> partition
+            self.cnt = 0
+            self.seen = set()
+
+        def handle_event(self, ev):
+            t = ev.time.nanoseconds
+            typ = ev.event_type[1:]
+            if "s" in typ:
+                ks, ss = typ.split("s")
+                k, origin = int(ks), str(self.pids[int(ss)])
+            else:
+                k, origin = int(typ), "i"
+            self.log.append((t, k, origin))
+            ems = list(self.script.get(k, ()))
+            for r in self.rules:
+                if r[0] == "first":
+                    _n, _e, ka, kb, d, tgt, k2 = r
+                    if k == ka and kb not in self.seen:
+                        ems.append((d, tgt, k2, False))
+                elif r[0] == "nth":
+                    _n, _e, n, d, tgt, k2 = r
+                    if self.cnt + 1 == n:
+                        ems.append((d, tgt, k2, False))
+                elif r[0] == "dedup":
+                    _n, _e, k0, d, tgt, k2 = r
+                    if k == k0 and k0 not in self.seen:
+                        ems.append((d, tgt, k2, False))
+            self.cnt += 1
+            self.seen.add(k)
+            out = []
+            for (d, tgt, k2, as_s) in ems:
+                peer = self.peers[tgt]
+                when = ev.time + (d / 1e9) if as_s else Instant(t + d)
+                if peer.pid != self.pid:
+                    self.sent_remote += 1
+                    self.xsends.add((t, self.pid, peer.pid, when.nanoseconds - t))
+                out.append(Event(time=when, event_type=f"k{k2}s{self.eid}", target=peer))
+            return out
+
+    _SNODE = SNode
+    return SNode
+
+
+def _raw(log, end):
+    """stateful families: deliveries in the order they happened, with origin tags"""
+    return " ".join(f"{t}:{k}:{o}" for (t, k, o) in log if end is None or t <= end)
+
+
 class _TTCounter(logging.Handler):
     def __init__(self):
         super().__init__(level=logging.WARNING)
@@ -184,9 +258,16 @@ class C05(core.Property):
             "search after a disagreement: mutations re-grid instants inside their window, stretch / insert idle gaps (everything after an instant moves by "
             "±1 ns, w/4, w/2, w/2+1, 3w/4, w−1, k·w + off), set cross delays to the exact link minimum, add local deliveries around cross arrivals, "
             "splice a wake-up burst after the last scheduled event. "
+            "family stateful (15 %): a linked / boundary program, often snapped to a grid of w, w/2 or w/4, plus 1–4 stateful rules on the harness entities — nth (emit on the "
+            "n-th delivery, n ∈ 1..5) and dedup (answer a kind only the first time it is seen), emissions local (delay 0, 1, w/2, w, w−1, L) or over a link (L, L+1, L+w/2, L+w): "
+            "tie-commutative handlers with state-dependent emissions. family tiex (5 %): two partitions with one stateful entity each, links both ways (L, 2L), window ∈ {default, L, L/2, L−1}, "
+            "all instants and delays on a grid of L/2, order-sensitive rules first (answer kind A only while no kind B was delivered) with local or cross-partition answers, in half of the cases a planted tie "
+            "(a cross-partition and a self-sent event due at one instant, the cross one created first, the receiver answering one of the two kinds only while it has not seen the other). "
+            "Stateful transcripts carry the real delivery order (no canonicalisation) and the sender's partition of every delivery; the model assigns creation indices as the code does. "
             "non-trivial = at least one cross-partition event was exchanged; distinct = distinct case content")
     trusted_base = [
-        "hv/props/c05.py harness entities (script handlers, delivery logs), canonicalisation of same-timestamp order",
+        "hv/props/c05.py harness entities (script handlers, stateful rule handlers, delivery logs with sender tags carried in the event type `k<kind>s<entity>`), "
+        "canonicalisation of same-timestamp order for stateless entities",
         "Python threads / the GIL / ThreadPoolExecutor scheduling are not modelled: a partition's window is a function of its own state; "
         "checked only by running max_workers=1 and N, twice each, and requiring identical observables",
         "CPython heapq for ties with equal (time, creation index) across partitions (not compared: same-timestamp order is canonicalised)",
@@ -197,11 +278,14 @@ class C05(core.Property):
         "packet_loss = 0 and latency = None on every link (declared loss and latency distributions are outside the property's hypothesis; "
         "the coordinator calls latency.sample(), which LatencyDistribution does not have)",
         "wall-clock summary fields (speedup, efficiency, barrier overhead) are not compared",
-        "handlers in the correspondence runs are stateless scripts; stateful handlers are covered only by the theorems that quantify over arbitrary handler functions "
-        "(par_eq_seq_tie_commutative, par_eq_seq_no_ties) and by fixes/C05-tie-order-sensitive-handlers.replay.py (one order-sensitive and one counting entity on the real code)",
-        "known finding (design-level, fixes/C05-tie-order-sensitive-handlers.known.md): for handlers that are order-sensitive inside one timestamp the main clause is false "
-        "of model and code alike (a cross-partition arrival at exactly the window end is delivered after a local event of the same timestamp that sequentially comes later); "
-        "not generated, not in corpus",
+        "80 % of the correspondence runs use stateless script entities; 20 % (families stateful, tiex) stateful ones: delivery counter + set of kinds seen, rules nth / dedup "
+        "(tie-commutative: ruleHandler_tieCommutative) and first (order-sensitive), compared with the model delivery by delivery in the real order",
+        "known finding (design-level, fixes/C05-tie-order-sensitive-handlers.known.md, signature par/tie-order/cross-arrival-after-local-tie, witness corpus/C05/tie-order-first-kind-wins.json): "
+        "for handlers that are order-sensitive inside one timestamp the main clause is false of model and code alike (a cross-partition arrival is injected at the barrier and delivered after a local "
+        "event of the same timestamp that sequentially comes later); family tiex hits it a few times per run; the order-sensitive rule is generated only for two single-entity partitions, where every "
+        "tie inversion has the named form",
+        "the stateful modes of the model (runs / judges) use coordLoopR + Part.initCtr (creation indices as in core/event.py, event_heap.py, Simulation.schedule at a barrier); the stateless modes keep "
+        "coordLoop (indices of injected events unchanged) — there the order inside a timestamp is canonicalised and cannot influence a stateless script",
         "times < 100 s so that the coordinator's float min-latency check (delay_s < min_latency - 1e-12) is exact on the ns grid",
         "generator restriction F1 (reproduced defect of /repo, fixes/C05-min-latency-float-truncation.{diff,md}): declared latencies whose float seconds truncate to "
         "one nanosecond less (0.0157 s) are not generated unless HV_C05_LIFT=F1; on such a link /repo rejects a sender that uses the very float it declared",
@@ -218,6 +302,8 @@ class C05(core.Property):
         "valid_config_never_rejected: RespectsMin — every cross-partition emission of the handler goes over a declared link with a delay of at least its "
         "(effective, integer-nanosecond) minimum; initial heaps owned, outboxes empty; conclusion: the run never ends in RuntimeError",
         "par_eq_seq_partial: EventDetermined (emissions are a function of the delivered event) and Ranked (finite programs)",
+        "*_R theorems (coordLoopR, what the `runs` mode executes): same hypotheses; creation counters of the partitions arbitrary (ParInit does not constrain them), "
+        "sequential run started with any counter n0 (the driver: number of pre-run events); agree_before_first_tie(_R): additionally T' ≤ end_time and NoTies of the sequential logs up to T'",
         "par_eq_seq_tie_commutative / par_eq_seq_no_ties / par_eq_seq_no_ties_observed: handler = liftP hE, hE : state of the target entity × event "
         "(time, target, kind; no creation index) → new state × emissions (entity-local); same run hypotheses as par_eq_seq_partial (ParInit, all "
         "partitions start from one state map, coordLoop returns err = none, sequential run Halted); no finiteness hypothesis (the induction is on "
@@ -237,10 +323,12 @@ class C05(core.Property):
             "(3) par_eq_seq_no_ties — arbitrary (order-sensitive) entity-local stateful handlers when the SEQUENTIAL run delivers no two events "
             "to one entity at one timestamp: logs EQUAL, final states determined (par_eq_seq_no_ties_observed: same from the partitioned run's logs; "
             "seq_final_state: states equal to the sequential run's when it has no horizon overshoot). "
-            "Exact remaining gap: handlers that are order-sensitive inside a timestamp AND receive such ties (there the clause is false); "
+            "agree_before_first_tie(_R): for every handler the two runs agree up to the first same-timestamp group of the sequential run, so the model's divergences are always tie-order divergences; "
+            "the _R theorems are the same statements for coordLoopR, the coordinator with the code's creation indices that the driver runs for stateful entities. "
+            "Exact remaining gap: handlers that are order-sensitive inside a timestamp AND receive such ties (there the clause is false: known finding par/tie-order/…); "
             "handlers that read another entity's state (not entity-local) or the event's creation index; (2) asks commutation for all "
             "same-timestamp pairs of events, not only those that actually tie in the run (the core lemma `stateful_core` needs it only for pairs "
-            "delivered by the partitioned run). The correspondence runs still use stateless script entities (class (1))."),
+            "delivered by the partitioned run). The judge's classification of a divergence as par/tie-order/… (SpecS.tieOrderCause) is a decidable observation on the two logs, not a theorem."),
     }
 
     # ------------------------------------------------------------------ generation
@@ -256,7 +344,148 @@ class C05(core.Property):
             return self.gen(rng, tier, family="idle")
         if r in (5, 6):
             return self.gen_wake(rng, tier)
+        if r == 8:
+            return self.gen_stateful(rng, tier)
+        if r == 9:
+            return self.gen_tiex(rng, tier) if (i // 10) % 2 == 0 else self.gen_stateful(rng, tier)
         return self.gen(rng, tier, family="linked")
+
+    # ---- stateful harness entities ------------------------------------------------------------------
+    def gen_stateful(self, rng, tier):
+        """family stateful: a linked / boundary program plus tie-commutative stateful rules (`nth`: emit on the n-th
+        delivery, `dedup`: answer a kind only the first time) on a coarse time grid, so that same-timestamp deliveries
+        to one entity (local + cross-partition) are frequent.  par_eq_seq_tie_commutative says the logs stay equal up
+        to the order inside a timestamp; the transcripts carry the real order and must agree with the model's."""
+        case = self.gen(rng, tier, family=rng.choice(["linked", "linked", "boundary"]))
+        case["family"] = "stateful"
+        ents, nent = case["ents"], len(case["ents"])
+        lat = {(a, b): l for a, b, l in case["links"]}
+        lmin = min((l[2] for l in case["links"]), default=1_000_000)
+        w = trunc_ns(case["window"] if case["window"] is not None else lmin) or 1
+        kinds = [x[2] for x in case["init"]] + [x[1] for x in case["prog"]] + [x[4] for x in case["prog"]]
+        nk = max(kinds, default=0) + 1
+        if rng.random() < 0.6:
+            # snap instants and integer delays to a coarse grid: many ties
+            g = max(1, rng.choice([w, w // 2, w // 2, w // 4]))
+            for x in case["init"]:
+                x[0] = (x[0] // g) * g
+            for x in case["prog"]:
+                if len(x) == 5:
+                    l = lat.get((ents[x[0]], ents[x[3]]))
+                    d = (x[2] // g) * g
+                    if l is not None and ents[x[0]] != ents[x[3]]:
+                        while d < trunc_ns(l):
+                            d += g
+                    x[2] = d
+        sprog = []
+        for _ in range(rng.randint(1, 4)):
+            e = rng.randrange(nent)
+            remote = [t for t in range(nent) if ents[t] != ents[e] and (ents[e], ents[t]) in lat]
+            if remote and rng.random() < 0.5:
+                t = rng.choice(remote)
+                l = trunc_ns(lat[(ents[e], ents[t])])
+                d = l + rng.choice([0, 0, 1, w // 2, w])
+            else:
+                t = rng.choice([x for x in range(nent) if ents[x] == ents[e]])
+                d = rng.choice([0, 1, w // 2, w, w - 1, lmin])
+            k2 = rng.randrange(nk + 1)
+            if rng.random() < 0.5:
+                sprog.append(["nth", e, rng.randint(1, 5), d, t, k2])
+            else:
+                sprog.append(["dedup", e, rng.randrange(nk + 1), d, t, k2])
+        # planted tie of two cross-partition arrivals from different source partitions (plus a self-sent event) at one
+        # entity: their order is the order in which the barrier exchange walks the outboxes
+        trip = [(a, b, t) for t in range(nent) for a in range(nent) for b in range(nent)
+                if a < b and len({ents[a], ents[b], ents[t]}) == 3 and (ents[a], ents[t]) in lat and (ents[b], ents[t]) in lat]
+        if trip and rng.random() < 0.6:
+            a, b, t = rng.choice(trip)
+            la, lb = trunc_ns(lat[(ents[a], ents[t])]), trunc_ns(lat[(ents[b], ents[t])])
+            trig = nk + 2
+            arr = max(la, lb) + w * rng.choice([0, 1, 2, 3]) + rng.choice([0, 0, 1, w // 2])
+            if rng.random() < 0.5:
+                arr = (arr // w + 1) * w                       # exactly on a window boundary
+            da = la + rng.choice([0, 0, w // 2, w])
+            db = lb + rng.choice([0, 0, 1, w // 2])
+            da, db = min(da, arr), min(db, arr)
+            case["prog"] += [[a, trig, da, t, nk + 3], [b, trig, db, t, nk + 4]]
+            case["init"] += [[arr - da, a, trig], [arr - db, b, trig]]
+            if rng.random() < 0.5:
+                case["prog"].append([t, trig, w // 2 + 1, t, nk + 5])
+                if arr - (w // 2 + 1) >= 0:
+                    case["init"].append([arr - (w // 2 + 1), t, trig])
+            if case["end"] is not None and case["end"] < arr:
+                case["end"] = arr + rng.choice([0, 1, w])
+        case["sprog"] = sprog
+        return case
+
+    def gen_tiex(self, rng, tier):
+        """family tiex: two partitions with one stateful entity each, links both ways, everything on a grid of half the
+        link latency, so that a cross-partition arrival and a local (self-sent) delivery often carry one timestamp.
+        Rules include the order-sensitive `first` (answer kind A only while no kind B has been delivered).  Where the
+        two runs deliver such a tie in different orders and the entity cares, the logs diverge:
+        known finding fixes/C05-tie-order-sensitive-handlers.known.md; the judge names it par/tie-order/…."""
+        nparts = rng.choice([2, 2, 3])
+        ents = [0, 1]
+        L = rng.choice([1_000, 100_000, 1_000_000, 10_000_000, 3_000_000])
+        L01, L10 = L * rng.choice([1, 1, 2]), L * rng.choice([1, 1, 2])
+        links = [[0, 1, L01], [1, 0, L10]]
+        if nparts == 3 and rng.random() < 0.5:
+            links.append([rng.choice([0, 1]), 2, L])
+        lat = {(0, 1): L01, (1, 0): L10}
+        window = rng.choice([None, L, L, L // 2, max(1, L - 1)])
+        w = window if window is not None else L
+        g = L // 2
+        nk = rng.choice([3, 4, 5])
+        prog = []
+        for e in (0, 1):
+            o = 1 - e
+            for k in range(nk - 1):
+                for _ in range(rng.choice([0, 1, 1, 2])):
+                    k2 = rng.randint(k + 1, nk - 1)
+                    if rng.random() < 0.5:
+                        prog.append([e, k, lat[(e, o)] + g * rng.choice([0, 0, 0, 1, 2]), o, k2])
+                    else:
+                        prog.append([e, k, g * rng.choice([1, 1, 2, 2, 3, 4]), e, k2])
+        sprog = []
+        for _ in range(rng.randint(1, 3)):
+            e = rng.choice([0, 1])
+            o = 1 - e
+            ka = rng.randint(0, nk - 1)
+            kb = rng.choice([k for k in range(nk) if k != ka])
+            k2 = rng.randint(ka + 1, nk) if ka + 1 <= nk else nk
+            if rng.random() < 0.5:
+                sprog.append(["first", e, ka, kb, g * rng.choice([0, 1, 2]), e, k2])
+            else:
+                sprog.append(["first", e, ka, kb, lat[(e, o)] + g * rng.choice([0, 1]), o, k2])
+        if rng.random() < 0.4:
+            e = rng.choice([0, 1])
+            sprog.append(rng.choice([["nth", e, rng.randint(2, 4), g, e, rng.randrange(nk)],
+                                     ["dedup", e, rng.randrange(nk), lat[(e, 1 - e)], 1 - e, rng.randrange(nk)]]))
+        init = [[g * rng.choice([0, 0, 1, 2, 3, 4, 6]), rng.choice([0, 1]), rng.choice([0, 0, 0, 1])]
+                for _ in range(rng.randint(2, 5))]
+        if rng.random() < 0.5:
+            # a planted tie: `a` sends kind kx across the link, `b` sends itself kind ky, both due at one instant; the
+            # cross event is created first (sequentially it is delivered first); `b` answers one of the two kinds
+            # only while it has not seen the other
+            a = rng.choice([0, 1])
+            b = 1 - a
+            kx, ky, kz = nk, nk + 1, nk + 2
+            t0 = g * rng.choice([0, 1, 2, 3, 5])
+            dx = lat[(a, b)] + g * rng.choice([0, 0, 0, 1, 2])
+            off = g * rng.randint(1, max(1, dx // g - 1)) if rng.random() < 0.8 else 0
+            off = min(off, dx)
+            trig = nk + 3
+            prog.append([a, trig, dx, b, kx])
+            prog.append([b, trig, dx - off, b, ky])
+            init += [[t0, a, trig], [t0 + off, b, trig]]
+            if rng.random() < 0.7:
+                sprog.insert(0, ["first", b, kx, ky, g * rng.choice([0, 1, 1, 2]), b, kz])
+            else:
+                sprog.insert(0, ["first", b, ky, kx, lat[(b, a)] + g * rng.choice([0, 1]), a, kz])
+        ke = rng.choice([3, 5, 8, 13])
+        end = rng.choice([None, None, ke * w, ke * w + 1, ke * w + g])
+        return dict(family="tiex", nparts=nparts, ents=ents, links=links, window=window, end=end,
+                    prog=prog, sprog=sprog, init=init, reps=1)
 
     def gen(self, rng, tier, family):
         nparts = rng.choice([2, 2, 3, 3, 4]) if family != "indep" else rng.choice([1, 2, 3, 4])
@@ -499,10 +728,21 @@ class C05(core.Property):
         for x in case["prog"]:
             e, k, d, t, k2 = x[:5]
             scripts[e].setdefault(k, []).append((d, t, k2, len(x) > 5))
-        nodes = [Node(e, case["ents"][e], scripts[e]) for e in range(nent)]
+        if "sprog" in case:
+            SNode = _snode_class()
+            nodes = [SNode(e, case["ents"][e], scripts[e], [tuple(r) for r in case["sprog"] if r[1] == e], list(case["ents"]))
+                     for e in range(nent)]
+            for r in case["sprog"]:
+                nodes[r[1]].peers[r[-2]] = nodes[r[-2]]
+        else:
+            nodes = [Node(e, case["ents"][e], scripts[e]) for e in range(nent)]
         for x in case["prog"]:
             nodes[x[0]].peers[x[3]] = nodes[x[3]]
         return nodes
+
+    @staticmethod
+    def _fmt(case, log, end):
+        return _raw(log, end) if "sprog" in case else _canon(log, end)
 
     def run_parallel(self, case, workers):
         from happysimulator.core.event import Event
@@ -537,7 +777,7 @@ class C05(core.Property):
             lg.removeHandler(h)
             lg.disabled = old_disabled
             lg.setLevel(old_level)
-        out = [f"par {n.eid} {_canon(n.log, end)}".rstrip() for n in nodes]
+        out = [f"par {n.eid} {self._fmt(case, n.log, end)}".rstrip() for n in nodes]
         sent = sum(n.sent_remote for n in nodes)
         tail = [f"tt {h.n}", f"cross {sent} {summ.total_cross_partition_events}", f"windows {summ.total_windows}"]
         return out, tail
@@ -554,7 +794,7 @@ class C05(core.Property):
             sim.schedule(Event(time=Instant(t), event_type=f"k{k}", target=nodes[e]))
         sim.run()
         xs = sorted({(a, b, d) for n in nodes for (t, a, b, d) in n.xsends if end is None or t <= end})
-        return ([f"seq {n.eid} {_canon(n.log, end)}".rstrip() for n in nodes],
+        return ([f"seq {n.eid} {self._fmt(case, n.log, end)}".rstrip() for n in nodes],
                 [f"xs {a} {b} {d}" for a, b, d in xs])
 
     def run_impl(self, case):
@@ -591,6 +831,9 @@ class C05(core.Property):
         body += ["emit " + " ".join(map(str, x)) for x in case["prog"]]
         body += ["init " + " ".join(map(str, x)) for x in case["init"]]
         w = "none" if case["window"] is None else str(case["window"])
+        if "sprog" in case:
+            body += ["s" + " ".join(map(str, r)) for r in case["sprog"]]
+            return (f"runs {variant} {case['nparts']} {w} {self._t(case['end'])}", body)
         return (f"run {variant} {case['nparts']} {w} {self._t(case['end'])}", body)
 
     def judge_block(self, case, impl_out):
@@ -603,6 +846,8 @@ class C05(core.Property):
             body += ["emit " + " ".join(map(str, x)) for x in case["prog"]]
             w = "none" if case["window"] is None else str(case["window"])
             return (f"judge-err {case['nparts']} {w}", body + list(impl_out))
+        if "sprog" in case:
+            return (f"judges {self._t(case['end'])}", [f"ent {e} {p}" for e, p in enumerate(case["ents"])] + list(impl_out))
         return (f"judge {self._t(case['end'])}", list(impl_out))
 
     def nontrivial_key(self, case, impl_out):
@@ -613,7 +858,9 @@ class C05(core.Property):
         return None
 
     def shrink(self, case):
-        for key in ("init", "prog", "links"):
+        for key in ("init", "sprog", "prog", "links"):
+            if key not in case:
+                continue
             xs = case[key]
             n = len(xs)
             step = max(1, n // 2)
@@ -730,6 +977,14 @@ THEOREMS: list[str] = [
     "HappyModel.C05.par_eq_seq_no_ties_observed",
     "HappyModel.C05.seq_final_state",
     "HappyModel.C05.countHandler_tieCommutative",
+    "HappyModel.C05.agree_before_first_tie",
+    "HappyModel.C05.confluence_prefix",
+    "HappyModel.C05.par_execR",
+    "HappyModel.C05.par_eq_seq_tie_commutative_R",
+    "HappyModel.C05.par_eq_seq_no_ties_R",
+    "HappyModel.C05.agree_before_first_tie_R",
+    "HappyModel.C05.ruleHandler_tieCommutative",
+    "HappyModel.C05.ruleHandlerL_eq",
     "HappyModel.C05.no_time_travel_current_false",
     "HappyModel.C05.idle_skip_safe",
     "HappyModel.C05.idle_window_noop",
